@@ -1,4 +1,2 @@
 -- Root of the `PasslibVerif` library: everything that must build.
-import PasslibVerif.Py.Basic
-import PasslibVerif.Gen.B64
-import PasslibVerif.Model.B64
+import PasslibVerif.Props.C12
